@@ -126,6 +126,15 @@ def _pred(run, P):
     ok = bool(calls) and all(
         (len(c.args) > idx and dotted(c.args[idx]) == pname) or
         dotted(kwarg(c, pname)) == pname for c in calls)
+    if not ok:
+        # handed on inside another expression (a wrapper, a local it was assigned to):
+        # what reaches the phase fusion is then not decided here
+        for c in calls:
+            a_ = c.args[idx] if len(c.args) > idx else kwarg(c, pname)
+            if a_ is not None and dotted(a_) != pname and (
+                    not isinstance(a_, ast.Constant)):
+                raise AnalysisError(f"fuse_two_dags: {pname} reaches fuse_two_phases as "
+                                    f"{norm(a_)[:60]}; not recognised")
     run.ob("C16.pred", fd, calls[0] if calls else fd.node, ok,
            construct=f"fuse_two_dags passes {pname} on to fuse_two_phases",
            why="a predicate that is accepted and dropped lets pymbolic's default "
@@ -303,11 +312,14 @@ def _agree(run, P):
     run.ob("C16.agree", fd, tests[0].ast if tests else fd.node, ok,
            construct="initial_phase disagreement raises before a result is returned",
            why="the fused method can start in only one phase")
-    loops = [n for n in ast.walk(fd.node) if isinstance(n, ast.For)]
-    ok = len(loops) == 1 and isinstance(loops[0].iter, ast.Call) \
-        and dotted(loops[0].iter.func) == "sorted"
-    run.ob("C16.order", fd, loops[0] if loops else fd.node, ok,
-           construct=f"for phase_name in {norm(loops[0].iter) if loops else '?'}",
+    # the walk over the phase names, written as a loop or as a comprehension
+    loops = [n for n in ast.walk(fd.node) if isinstance(n, (ast.For, ast.comprehension))
+             and ".phases" in norm(n.iter)]
+    if len(loops) != 1:
+        raise AnalysisError(f"fuse_two_dags: {len(loops)} walks over the phase names; one expected")
+    ok = isinstance(loops[0].iter, ast.Call) and dotted(loops[0].iter.func) == "sorted"
+    run.ob("C16.order", fd, loops[0] if isinstance(loops[0], ast.For) else loops[0].iter, ok,
+           construct=f"for phase_name in {norm(loops[0].iter)}",
            why="the Python generator emits phases in dictionary order; a set order "
                "makes the generated text depend on the hash seed (C15)")
 
